@@ -85,7 +85,7 @@ def _is_bytes(e: ast.expr) -> bool:
     return isinstance(e, ast.Constant) and isinstance(e.value, bytes)
 
 
-def _aad_shape(fn: ast.FunctionDef) -> dict[str, object]:
+def _aad_shape(fn: ast.FunctionDef, consts: dict[str, object] | None = None) -> dict[str, object]:
     """prefix / anonymous tail / user tail of an AAD builder.
 
     Expected body::
@@ -131,9 +131,15 @@ def _aad_shape(fn: ast.FunctionDef) -> dict[str, object]:
         and isinstance(user[4], ast.Name) and user[4].id == "principal"
     ):
         raise Shape(f"{fn.name}: user AAD is not prefix + tag + domain + sep + principal")
-    # prefix: literal  |  literal + method.encode() + literal(1 byte)
+    # prefix: literal  |  literal + method.encode() + literal(1 byte)  |  literal + method.encode()[:W].ljust(W, pad)
     method_bound = False
     method_sep = b""
+    method_width = 0       # 0 = terminated by `method_sep`; W > 0 = fixed-width field (truncated to W bytes, padded)
+    method_pad = b"\x00"
+    import re as _re
+
+    fixed = _re.match(r"^method\.encode\(\)\[:(\w+)\]\.ljust\((\w+), (b'(?:\\x[0-9a-f]{2}|.)')\)$",
+                      ast.unparse(prefix_parts[1])) if len(prefix_parts) == 2 else None
     if len(prefix_parts) == 1 and _is_bytes(prefix_parts[0]):
         lit = prefix_parts[0].value  # type: ignore[attr-defined]
     elif (
@@ -146,6 +152,18 @@ def _aad_shape(fn: ast.FunctionDef) -> dict[str, object]:
         lit = prefix_parts[0].value  # type: ignore[attr-defined]
         method_bound = True
         method_sep = prefix_parts[2].value  # type: ignore[attr-defined]
+    elif (
+        fixed is not None and _is_bytes(prefix_parts[0]) and fixed.group(1) == fixed.group(2)
+        and any(a.arg == "method" for a in fn.args.args)
+    ):
+        w = fixed.group(1)
+        width = int(w) if w.isdigit() else (consts or {}).get(w)
+        if not isinstance(width, int) or width <= 0:
+            raise Shape(f"{fn.name}: cannot resolve the method field width {w!r}")
+        lit = prefix_parts[0].value  # type: ignore[attr-defined]
+        method_bound = True
+        method_width = width
+        method_pad = ast.literal_eval(fixed.group(3))
     else:
         raise Shape(f"{fn.name}: unexpected prefix expression {ast.unparse(ast.Tuple(prefix_parts, ast.Load()))}")
     return {
@@ -155,6 +173,8 @@ def _aad_shape(fn: ast.FunctionDef) -> dict[str, object]:
         "sep": user[3].value,  # type: ignore[attr-defined]
         "method_bound": method_bound,
         "method_sep": method_sep,
+        "method_width": method_width,
+        "method_pad": method_pad,
     }
 
 
@@ -483,7 +503,7 @@ def emit() -> dict[str, str]:
         raise Shape(f"call token: {n_call_packs} packed segments but {n_call_segs} read")
 
     aad_cur = _aad_shape(_func(st_tree, "_compute_aad"))
-    aad_call = _aad_shape(_func(st_tree, "_compute_call_aad"))
+    aad_call = _aad_shape(_func(st_tree, "_compute_call_aad"), c)
     if aad_cur["method_bound"]:
         raise Shape("_compute_aad unexpectedly takes a method (shared with sticky sessions)")
     for k in ("anon", "tag", "sep"):
@@ -561,6 +581,11 @@ def identitySep : UInt8 := {aad_cur["sep"][0]}
 /-- `_compute_call_aad` puts `method.encode() + methodSep` between the prefix and the identity tail -/
 def callAadHasMethod : Bool := {str(bool(aad_call["method_bound"])).lower()}
 def methodSep : UInt8 := {(aad_call["method_sep"] or b"\\0")[0]}
+/-- layout of the method segment: width 0 = the whole `method.encode()` followed by `methodSep` (prefix-free, since
+    method names are NUL-free); width W > 0 = a fixed field `method.encode()[:W].ljust(W, pad)` — truncating, hence
+    **not injective** for names that agree on their first W bytes -/
+def callAadMethodWidth : Nat := {aad_call["method_width"]}
+def callAadMethodPad : UInt8 := {aad_call["method_pad"][0]}
 
 /-! shapes -/
 /-- TTL guard is `token_ttl > 0` and the test `int(time.time()) - created_at > token_ttl` in both openers -/
